@@ -534,15 +534,20 @@ def directed(rng, n, kinds=None):
     preamble."""
     v = lambda: rng.choice(VALUES)  # noqa: E731
     t = lambda: rng.choice(TYPES)   # noqa: E731
-    arr = lambda: rng.choice(['', '', '[]', '[2]', '[0]', '[-1]', '[x]',
-                              '[08]'])  # noqa: E731
-    ql = lambda: rng.choice(['', '', '[Description("d")] ',
-                             '[%s(%s)] ' % (rng.choice(QNAMES), v()),
-                             '[%s %s] ' % (rng.choice(QNAMES), v()),
-                             '[%s] ' % rng.choice(QNAMES),
-                             '[%s : %s] ' % (rng.choice(QNAMES),
-                                             rng.choice(FLAVORS)),
-                             '[Key, Key] ', '[] '])  # noqa: E731
+    # calm: one hostile element in otherwise plain surroundings, so that the
+    # construct gets past the parser into the dependency and repository paths
+    calm = rng.random() < 0.5
+    arr = lambda: rng.choice(  # noqa: E731
+        ['', '', '', '[]'] if calm else
+        ['', '', '[]', '[2]', '[0]', '[-1]', '[x]', '[08]'])
+    ql = lambda: rng.choice(  # noqa: E731
+        ['', '', '', '', '[Description("d")] ', '[Key] '] if calm else
+        ['', '', '[Description("d")] ',
+         '[%s(%s)] ' % (rng.choice(QNAMES), v()),
+         '[%s %s] ' % (rng.choice(QNAMES), v()),
+         '[%s] ' % rng.choice(QNAMES),
+         '[%s : %s] ' % (rng.choice(QNAMES), rng.choice(FLAVORS)),
+         '[Key, Key] ', '[] '])
     kind = rng.choice(kinds or ALL_KINDS)
     if kind == 'depclass':
         # classes whose elements depend on other classes (references,
@@ -622,8 +627,9 @@ def directed(rng, n, kinds=None):
         if rng.random() < 0.2:
             body = body.replace('(', ' ').replace(')', '')
     elif kind == 'refdecl':
-        body = 'class VC%d { %s%s REF r%s = %s; };' % (
-            n, ql(), rng.choice(CLASSES), arr(), v())
+        body = 'class VC%d { %s%s REF r%s%s; };' % (
+            n, ql(), rng.choice(CLASSES), arr(),
+            ' = ' + v() if rng.random() < (0.3 if calm else 0.8) else '')
     elif kind == 'method':
         body = 'class VC%d { %s%s m%s(%s%s a%s%s); };' % (
             n, ql(), t(), arr(), ql(), rng.choice(TYPES + ['VF_Base REF']),
